@@ -25,6 +25,8 @@ ASSUMPTIONS = [
     'message texts and methods of other objects (cursor.execute, Compiler.compile seen from compiler.compile) are uninterpreted; '
     'C09_source_connection_init covers the leading self.<attr> = ... statements of Connection.__init__ (selected by structure); '
     'attach() (importlib, the data source) is outside the fragment',
+    'source-data fingerprint (table_fingerprint): value-based and identity-free (two connections on one file give equal fingerprints); '
+    'the per-scan working state of a query_env.Row context (rowid, running balance, memo) is not source data and is left out',
 ]
 IMPORTS = c01.IMPORTS + ['Model.Params']
 MARK = '\x00'
@@ -481,31 +483,44 @@ def show_history(h):
 IMMUTABLE_DIFF = []
 
 
+_ADDR = re.compile(r' at 0x[0-9a-fA-F]+')
+
+
 def _freeze(v, depth=0):
-    """a deep, order-preserving, comparable snapshot of a data container (dict order and defaulting behaviour included)"""
+    """a deep, order-preserving, VALUE-based snapshot of a data container (dict order and dict class included); nothing in it
+    depends on object identity: an object without a value-based repr is taken by its attributes, and any address left in
+    a repr is blanked"""
     if isinstance(v, dict):
         return ('dict', type(v).__name__, [(_freeze(k, depth + 1), _freeze(x, depth + 1)) for k, x in list(v.items())])
     if isinstance(v, (list, tuple)):
         return (type(v).__name__, [_freeze(x, depth + 1) for x in v])
     if isinstance(v, (set, frozenset)):
         return ('set', sorted(repr(_freeze(x, depth + 1)) for x in v))
-    if type(v).__repr__ is object.__repr__ and depth < 6:
-        # no value-based repr (query_env.Row ...): the attributes, not the address
+    if type(v).__repr__ is object.__repr__ and depth < 8:
         names = list(getattr(v, '__dict__', {})) + [n for c in type(v).__mro__ for n in getattr(c, '__slots__', ())]
         return ('object', type(v).__name__, [(n, _freeze(getattr(v, n, None), depth + 1)) for n in sorted(set(names))])
-    return repr(v)
+    return _ADDR.sub(' at 0x?', repr(v))
+
+
+def _freeze_row(r):
+    """what a table yields: a directive / tuple of source values is taken whole; a row CONTEXT object (query_env.Row: rowid,
+    running balance and its memo are per-scan working state, not source data) only by the directive data it points to"""
+    if type(r).__repr__ is object.__repr__:
+        return ('context', type(r).__name__, [(n, _freeze(getattr(r, n))) for n in ('entry', 'posting') if hasattr(r, n)])
+    return _freeze(r)
 
 
 def table_fingerprint(conn):
-    """{table name: {'attr:<name>': snapshot of every instance attribute of the table object (the containers its rows and the
-    context functions are served from), 'rows': what iterating the table yields}} for every table of the connection"""
+    """SOURCE DATA of the connection, by value: {table name: {'attr:<name>': every instance attribute of the table object (the
+    directive lists, options, price map, account / commodity maps its rows and the context functions are served from),
+    'rows': the source values iterating the table yields}} for every table of the connection"""
     fp = {}
     for name, t in conn.tables.items():
         d = {}
         for k, v in sorted(getattr(t, '__dict__', {}).items()):
             d['attr:' + k] = _freeze(v)
         try:
-            d['rows'] = [_freeze(r) for r in t]
+            d['rows'] = [_freeze_row(r) for r in t]
         except Exception as e:  # noqa: BLE001
             d['rows'] = 'iteration raises ' + type(e).__name__
         fp[name or '(default)'] = d
